@@ -24,7 +24,14 @@ partial def treeOfJson (j : Json) : Except String Tree := do
       | .str s => pure (.leaf (.str s))
       | .num n => if n.exponent == 0 then pure (.leaf (.int n.mantissa))
                   else pure (.leaf (.opaque l.compress))
-      | other => pure (.leaf (.opaque other.compress))
+      | other =>
+          -- {"torchdev": [type, index|null]} is a torch.device object
+          match other.getObjVal? "torchdev" with
+          | .ok td =>
+              let a ← td.getArr?
+              if a.size != 2 then throw "torchdev" else
+              pure (.leaf (.dev (← a[0]!.getStr?) (a[1]!.getNat?.toOption)))
+          | .error _ => pure (.leaf (.opaque other.compress))
 
 partial def treeToJson : Tree → Json
   | .leaf .none => Json.mkObj [("l", Json.null)]
@@ -32,6 +39,8 @@ partial def treeToJson : Tree → Json
   | .leaf (.int i) => Json.mkObj [("l", Json.num (JsonNumber.fromInt i))]
   | .leaf (.str s) => Json.mkObj [("l", Json.str s)]
   | .leaf (.opaque r) => Json.mkObj [("l", (Json.parse r).toOption.getD (Json.str r))]
+  | .leaf (.dev t i) => Json.mkObj [("l", Json.mkObj [("torchdev", Json.arr #[Json.str t,
+      match i with | some n => Json.num (JsonNumber.fromNat n) | .none => Json.null])])]
   | .node kvs => Json.mkObj [("d", Json.arr (kvs.map fun (k, v) =>
       Json.arr #[Json.str (String.ofList k), treeToJson v]).toArray)]
 
